@@ -3,6 +3,8 @@
 Query per program:  macro!{ v OPS.. } == v.reference_chain()  for all symbolic inputs, plus equal callback traces
 (per-callback count and argument xor, and an order-sensitive hash over (callback id, argument)).
 """
+import re
+
 from .driver import Program, pack
 from .dsl import *
 from .profiles import rng, KINDS
@@ -18,6 +20,7 @@ WEIGHTS = {"?&!>": 40, "?>": 6, "?|>": 6, "^^>": 5, "<->": 3, "=>[]": 2, ">@>": 
 
 
 def weight_of(chain, input_expr=""):
+    input_expr = re.sub(r"^lv\(\d+, ", "", input_expr)
     w = 1.0
     varlen = False      # an iterator whose length depends on the input
     mult = 1.0          # every chained iterator adds elements to loop over
@@ -41,9 +44,12 @@ def build(pid, macro, ctx, input_expr, chain, final_t, second_branch=False, grou
     cmpf = finish(final_t)
     if "usize" in str(final_t) and "vec" in str(final_t):
         unwind = max(unwind, 44)    # Vec<usize> equality is a byte-wise memcmp loop: 8 bytes per element
+    # the initial expression is logged too (evaluated exactly once; not a `{..}` block, so it is not hoisted)
+    i_init = ctx.cid()
+    input_expr = "lv(%d, %s)" % (i_init, input_expr)
     mac_chain = render_mac(chain)
     ref = render_ref(chain, input_expr)
-    ids = all_ids(chain)
+    ids = [i_init] + all_ids(chain)
     if second_branch:
         text = "%s! { %s, %s %s }" % (macro, "mo(true, 7u8)" if is_try and final_t[0] == "opt" else ("mk(true, 7u8)" if is_try else "7u8"), input_expr, mac_chain)
     else:
